@@ -25,7 +25,9 @@ RULE = ('one case = one history of 20-200 operations on one interpreter whose ca
         'objects which glom must copy: S(vv=Vars(<dict> | <OrderedDict> | <pairs> | {} | nothing, **defaults)) followed by '
         'a dict of A.vv.n writes / S.vv.n reads / A.globals.n / S.globals.n / A.n / S.n in random order (two holders may '
         'share one dict), binder chains, Spec(x, scope={..}), Fill shapes, container defaults/literals, with a caller '
-        'scope mapping in half of them; observed: a deep snapshot (every attribute of every spec object, recursively, by '
+        'scope mapping in half of them, containers with T leaves in argument position mapped over records targets and '
+        'evaluated on each other\'s targets (the 8 fixed pairs built directly in Python are also compared with their '
+        'documented result); observed: a deep snapshot (every attribute of every spec object, recursively, by '
         'structure and identity, incl. the mapping handed to Vars) of the spec graph and of the caller\'s scope mapping '
         'before/after, the reads replayed through the Lean heap model of Vars; (b) instances of a generated class '
         'hierarchy (3-6 classes, chains / diamonds, MRO as Python computed it) reached by string paths, list specs and '
@@ -161,6 +163,13 @@ def binder_entry(rng):
     return entry
 
 
+def argshape_entry(rng):
+    """a container with T leaves in argument position (Coalesce default, Call args, S(k=..) value, Fill), mapped
+    over the rows of a records target; evaluated on the other such entries' targets as well"""
+    g = Gen(rng, {'extra': []})
+    return {'target': ic.enc(Gen.rows_target(rng)), 'spec': g.s_argshape(None, 2), 'holder': True, 'rows': True}
+
+
 def build06(j, fns):
     """interp_common.build + Vars over every kind of mapping (the mapping object is the caller's: kept in
     `fns` under its `bid`, shared by every Vars naming that bid)"""
@@ -279,16 +288,21 @@ def _py_pool():
     import glom as G
     from glom.grouping import Group
     return {
-        # name -> (target builder, spec builder): specs outside the interpreter model's AST, built directly
-        'group_flatten': (lambda: [[1, 2], [3], [1, 4]], lambda: Group({G.T[0]: G.Flatten()})),
-        'group_fold_list': (lambda: [[1], [2], [1, 3]], lambda: Group({len: G.Fold(G.T, init=list)})),
-        'flatten': (lambda: [[1, [2]], [3]], lambda: G.Flatten()),
-        'merge': (lambda: [{'a': 1}, {'b': 2}, {'a': 3}], lambda: G.Merge()),
-        'sum_lists': (lambda: [[1], [2, 3]], lambda: G.Sum(init=list)),
-        'iter_all': (lambda: [3, 1, 2], lambda: G.Iter().map(G.T * 2).all()),
+        # name -> (target builder, spec builder, the result the documentation of the constructs gives):
+        # specs outside the interpreter model's AST, built directly
+        'group_flatten': (lambda: [[1, 2], [3], [1, 4]], lambda: Group({G.T[0]: G.Flatten()}),
+                          {1: [1, 2, 1, 4], 3: [3]}),
+        'group_fold_list': (lambda: [[1], [2], [1, 3]], lambda: Group({len: G.Fold(G.T, init=list)}),
+                            {1: [1, 2], 2: [1, 3]}),
+        'flatten': (lambda: [[1, [2]], [3]], lambda: G.Flatten(), [1, [2], 3]),
+        'merge': (lambda: [{'a': 1}, {'b': 2}, {'a': 3}], lambda: G.Merge(), {'a': 3, 'b': 2}),
+        'sum_lists': (lambda: [[1], [2, 3]], lambda: G.Sum(init=list), [1, 2, 3]),
+        'iter_all': (lambda: [3, 1, 2], lambda: G.Iter().map(G.T * 2).all(), [6, 2, 4]),
         'arg_list': (lambda: {'rows': [{'id': 1}, {'id': 2}]},
-                     lambda: ('rows', [G.Coalesce('name', default=[G.T['id'], 'n/a'])])),
-        'arg_dict_call': (lambda: [1, 2, 3], lambda: [G.Call(dict, kwargs={'v': G.T})]),
+                     lambda: ('rows', [G.Coalesce('name', default=[G.T['id'], 'n/a'])]),
+                     [[1, 'n/a'], [2, 'n/a']]),
+        'arg_dict_call': (lambda: [1, 2, 3], lambda: [G.Call(dict, kwargs={'v': G.T})],
+                          [{'v': 1}, {'v': 2}, {'v': 3}]),
     }
 
 
@@ -319,13 +333,14 @@ def reg_op(rng, classes, reg, cls, counter):
 
 
 def generate(rng, tier, scale, **focus):
-    n = (16 if tier == 'quick' else 300) * scale
+    n = (24 if tier == 'quick' else 300) * scale
     for i in range(n):
         pl = pool(rng)
         g = Gen(rng, {'extra': []})
         classes = gen_classes(rng)
         n_regs = 1 + rng.randint(0, 2)                 # registry 0 = module-level, the others are Glommers
-        holders = [holder_entry(rng, g) for _ in range(3)] + [binder_entry(rng) for _ in range(2)]
+        holders = [holder_entry(rng, g) for _ in range(3)] + [binder_entry(rng) for _ in range(2)] + \
+            [argshape_entry(rng) for _ in range(2)]
         objs = [obj_entry(rng, classes) for _ in range(4)]
         names = PY_NAMES
         entries = [{'target': t, 'spec': s} for t, s in pl] + [{'py': nm} for nm in names] + holders + objs
@@ -351,7 +366,9 @@ def generate(rng, tier, scale, **focus):
                     o['idx'] = i_py + rng.randrange(len(names))
                 elif q < 0.8:
                     o['idx'] = i_hold + rng.randrange(len(holders))
-                    if rng.random() < 0.3:
+                    if entries[o['idx']].get('rows') and rng.random() < 0.6:
+                        o['tidx'] = rng.choice([x for x in range(i_hold, i_obj) if entries[x].get('rows')])
+                    elif rng.random() < 0.3:
                         o['tidx'] = rng.choice(list(range(len(pl))) + list(range(i_hold, i_obj)))
                 else:
                     o['idx'] = i_obj + rng.randrange(len(objs))
@@ -557,7 +574,7 @@ def run_impl(case):
     def build_entry(entry):
         """-> (target, spec, caller's scope mapping or None)"""
         if 'py' in entry:
-            tb, sb = _py_pool()[entry['py']]
+            tb, sb, _ = _py_pool()[entry['py']]
             return (tb(), sb(), None)
         fns = {}
         t = dec_o(entry['otarget'], klasses, fns) if 'otarget' in entry else ic.dec(entry['target'], fns)
@@ -624,6 +641,9 @@ def run_impl(case):
                 _, s2, sc2 = build_entry(entry)
                 oc2 = outcome(t2, s2, gc.PATH_STAR, call, sc2 if r == 0 else None)
                 o['same_as_rebuilt'] = (strip_fn_names(oc2) == strip_fn_names(oc))
+                if 'py' in entry and 'tidx' not in op:
+                    # a fixed (target, spec) pair: the result is known whatever came before
+                    o['same_as_expected'] = (oc.get('ok') == ic.enc(_py_pool()[entry['py']][2]))
                 keyf = (op['idx'], op.get('tidx'), gc.PATH_STAR, r, len(reg_hist[r]))
                 if keyf not in first:
                     first[keyf] = oc
@@ -687,7 +707,7 @@ def _prune(tree, cls):
             _prune(tree[k], cls)
 
 
-OBSERVED = ('same_as_first', 'same_as_fresh', 'same_as_rebuilt', 'inputs_unchanged', 'fresh', 'here',
+OBSERVED = ('same_as_expected', 'same_as_first', 'same_as_fresh', 'same_as_rebuilt', 'inputs_unchanged', 'fresh', 'here',
             'same_as_fresh_registry', 'fresh_registry', 'spec_graph_unchanged', 'scope_unchanged', 'vars')
 
 
